@@ -1,6 +1,7 @@
 #!/bin/sh
 # run every check's thorough tier sequentially (each under a time limit), log exit codes
+# usage: run_all_thorough.sh [limit-seconds] [first-id]
 cd /verif || exit 2
-LIM=${1:-5400}
+LIM=${1:-5400}; FROM=${2:-C00}
 git -C /repo status --short | grep -q . && { echo "/repo is not clean"; exit 2; }
-for f in checks/C*.json; do id=$(basename $f .json); s=$(date +%s); timeout $LIM ./check $id --tier thorough > /tmp/thor_$id.log 2>&1; rc=$?; echo "$id exit=$rc $(( $(date +%s) - s ))s $(tail -1 /tmp/thor_$id.log | cut -c1-140)"; done
+for f in checks/C*.json; do id=$(basename $f .json); [ "$id" \< "$FROM" ] && continue; s=$(date +%s); timeout $LIM ./check $id --tier thorough > /tmp/thor_$id.log 2>&1; rc=$?; echo "$id exit=$rc $(( $(date +%s) - s ))s $(tail -1 /tmp/thor_$id.log | cut -c1-140)"; done
